@@ -131,6 +131,20 @@ func drawTrial(t *rt.Tape, r *simrand.DRBG, exhaustiveIdx int) *trial {
 	return tr
 }
 
+// dirtyLabels is the receiver's result slice: in half of the calls a buffer the caller has used
+// before (non-zero labels), as an application that keeps one result buffer would pass it.
+func dirtyLabels(n int) []ot.Label {
+	out := make([]ot.Label, n)
+	if rt.Active() && rt.Choose(rt.SGen, 2) == 0 {
+		r := simrand.Stream("dirty")
+		for i := range out {
+			out[i], _ = ot.NewLabel(r)
+		}
+		rt.Reach("receive.result-buffer-reused-by-the-caller")
+	}
+	return out
+}
+
 type sample struct {
 	Trials []string
 	Base   string
@@ -262,7 +276,7 @@ func (w *world) Run(t *rt.Tape, trace bool) *core.Result {
 			}
 			for i, tr := range trials {
 				cur, msgBase = i, er.SentN
-				tr.recv = make([]ot.Label, tr.N)
+				tr.recv = dirtyLabels(tr.N)
 				tr.recvErr = r.Receive(tr.Choices, tr.recv, true)
 			}
 			cur = -1
@@ -421,7 +435,7 @@ func (w *world) runCOT(t *rt.Tape, trace bool, res *core.Result) *core.Result {
 			}
 			for i, tr := range batches {
 				cur, msgBase = i, er.SentN
-				tr.recv = make([]ot.Label, tr.N)
+				tr.recv = dirtyLabels(tr.N)
 				tr.recvErr = c.Receive(tr.Choices, tr.recv)
 				rBatches++
 				if tr.recvErr != nil {
